@@ -37,7 +37,7 @@ func runGio(c *Ctx) {
 			p    *core.Path
 		}
 		var sps []sp
-		c.Walk("R15", &core.Config{}, core.Entry{Decl: d}, func(p *core.Path) {
+		c.Walk("R15", &core.Config{Follow: samePkgFollow(d.Pkg.PkgPath)}, core.Entry{Decl: d}, func(p *core.Path) {
 			g := prepare(c, p)
 			did := false
 			for i, ev := range p.Events {
@@ -83,7 +83,7 @@ func runGio(c *Ctx) {
 	}
 	if d := c.declByName("R15", "ioseek", "ReaderAtSeeker", "Read"); d != nil {
 		name := core.FuncName(d.Obj)
-		c.Walk("R15", &core.Config{}, core.Entry{Decl: d}, func(p *core.Path) {
+		c.Walk("R15", &core.Config{Follow: samePkgFollow(d.Pkg.PkgPath)}, core.Entry{Decl: d}, func(p *core.Path) {
 			adv := false
 			for _, ev := range p.Events {
 				if ev.Kind == core.KAssign && ev.Var != nil && core.FieldName(ev.Var) == "ioseek.ReaderAtSeeker.offset" && ev.Tok == token.ADD_ASSIGN {
@@ -114,7 +114,7 @@ func runGio(c *Ctx) {
 			continue
 		}
 		name := core.FuncName(d.Obj)
-		c.Walk("R15", &core.Config{}, core.Entry{Decl: d}, func(p *core.Path) {
+		c.Walk("R15", &core.Config{Follow: samePkgFollow(d.Pkg.PkgPath)}, core.Entry{Decl: d}, func(p *core.Path) {
 			g := prepare(c, p)
 			for i, ev := range p.Events {
 				if isAtomicCall(ev, "Add") {
@@ -134,7 +134,7 @@ func runGio(c *Ctx) {
 					}
 					if conv, ok := unparen(ev.Call.Args[0]).(*ast.CallExpr); ok && len(conv.Args) == 1 {
 						if v := identVar(conv.Args[0], ev.Frame); v != nil {
-							cnt = c.Role(v)
+							cnt = g.builderAt(i).varTerm(v, ev.Frame)
 						}
 					}
 					a.note("R15", name+"/adds-returned-count", ev.Pos, !isCount, "the total grows by the count that is returned", "the total grows by "+arg+", not by the count the call returns", p)
@@ -151,7 +151,7 @@ func runGio(c *Ctx) {
 		cf := "iocloser." + tn.typ + ".close"
 		if d := c.declByName("R15", "iocloser", tn.typ, "Close"); d != nil {
 			name := core.FuncName(d.Obj)
-			c.Walk("R15", &core.Config{}, core.Entry{Decl: d}, func(p *core.Path) {
+			c.Walk("R15", &core.Config{Follow: samePkgFollow(d.Pkg.PkgPath)}, core.Entry{Decl: d}, func(p *core.Path) {
 				g := prepare(c, p)
 				clearedS, clearedC := false, false
 				for i, ev := range p.Events {
@@ -180,7 +180,7 @@ func runGio(c *Ctx) {
 		}
 		if d := c.declByName("R15", "iocloser", tn.typ, tn.io); d != nil {
 			name := core.FuncName(d.Obj)
-			c.Walk("R15", &core.Config{}, core.Entry{Decl: d}, func(p *core.Path) {
+			c.Walk("R15", &core.Config{Follow: samePkgFollow(d.Pkg.PkgPath)}, core.Entry{Decl: d}, func(p *core.Path) {
 				g := prepare(c, p)
 				for i, ev := range p.Events {
 					if ev.Kind == core.KCall && ev.Callee != nil && (ev.Callee.Name() == "Read" || ev.Callee.Name() == "Write") {
@@ -195,7 +195,7 @@ func runGio(c *Ctx) {
 	// --- ioproxy
 	if d := c.declByName("R13c", "ioproxy", "", "ProxyStreams"); d != nil {
 		name := core.FuncName(d.Obj)
-		c.Walk("R13c", &core.Config{}, core.Entry{Decl: d}, func(p *core.Path) {
+		c.Walk("R13c", &core.Config{Follow: samePkgFollow(d.Pkg.PkgPath)}, core.Entry{Decl: d}, func(p *core.Path) {
 			var gos []*core.Event
 			for _, ev := range p.Events {
 				if ev.Kind == core.KGo {
@@ -212,13 +212,13 @@ func runGio(c *Ctx) {
 	if d := c.declByName("R13c", "ioproxy", "", "proxyTo"); d != nil {
 		name := core.FuncName(d.Obj)
 		pv := paramVars(d)
-		c.Walk("R13c", &core.Config{}, core.Entry{Decl: d}, func(p *core.Path) {
+		c.Walk("R13c", &core.Config{Follow: samePkgFollow(d.Pkg.PkgPath)}, core.Entry{Decl: d}, func(p *core.Path) {
 			g := prepare(c, p)
 			closes := map[string]int{}
 			cbs := 0
 			cbNilKnown := false
 			for i, ev := range p.Events {
-				if ev.Kind == core.KCall && ev.Callee != nil && ev.Callee.Name() == "Close" {
+				if (ev.Kind == core.KCall || ev.Kind == core.KEnter) && ev.Callee != nil && ev.Callee.Name() == "Close" {
 					if sel, ok := unparen(ev.Call.Fun).(*ast.SelectorExpr); ok {
 						closes[core.ExprString(sel.X)]++
 					}
@@ -267,16 +267,16 @@ func runGio(c *Ctx) {
 					}
 				}
 			}()
-			c.Walk("R15", &core.Config{}, core.Entry{Decl: d}, func(p *core.Path) {
+			c.Walk("R15", &core.Config{Follow: samePkgFollow(d.Pkg.PkgPath)}, core.Entry{Decl: d}, func(p *core.Path) {
 				g := prepare(c, p)
 				type iter struct {
-					start              int
+					start               int
 					stores, dels, notes int
-					touches            bool
-					flags              []string
-					cmpEqual           bool
-					absent, present    bool
-					node               ast.Node
+					touches             bool
+					flags               []string
+					cmpEqual            bool
+					absent, present     bool
+					node                ast.Node
 				}
 				var cur *iter
 				okRole := "?ok"
@@ -428,7 +428,7 @@ func runGcodec(c *Ctx) {
 	if d := c.declByName("R14a", "padding", "", "UnpadInPlace"); d != nil {
 		name := core.FuncName(d.Obj)
 		pv := paramVars(d)
-		c.Walk("R14a", &core.Config{EmitAccess: false}, core.Entry{Decl: d}, func(p *core.Path) {
+		c.Walk("R14a", &core.Config{Follow: samePkgFollow(d.Pkg.PkgPath)}, core.Entry{Decl: d}, func(p *core.Path) {
 			g := prepare(c, p)
 			reassigned := false
 			seen := map[ast.Node]bool{}
@@ -496,10 +496,10 @@ func runGcodec(c *Ctx) {
 	if d := c.Prog.LookupFunc("prng", "randReader", "Read"); d != nil {
 		dd := c.Prog.Decl(d)
 		name := core.FuncName(d)
-		c.Walk("R14c", &core.Config{}, core.Entry{Decl: dd}, func(p *core.Path) {
+		c.Walk("R14c", &core.Config{Follow: samePkgFollow(dd.Pkg.PkgPath)}, core.Entry{Decl: dd}, func(p *core.Path) {
 			g := prepare(c, p)
 			for i, ev := range p.Events {
-				if ev.Kind == core.KCall && ev.Callee != nil && ev.Callee.Name() == "Uint64" && strings.Contains(core.ExprString(ev.Call.Fun), "src") {
+				if (ev.Kind == core.KCall || ev.Kind == core.KEnter) && ev.Callee != nil && ev.Callee.Name() == "Uint64" && strings.Contains(core.ExprString(ev.Call.Fun), "src") {
 					a.requireGuard("R14c", name+"/draw-when-buffer-empty", g, i, false, eq("0", "prng.randReader.off"), "drawing a new word from the source")
 				}
 			}
@@ -541,27 +541,68 @@ func runGcodec(c *Ctx) {
 				return true
 			})
 			a.note("R14c", name+"/deterministic", d.Decl.Pos(), bad != "", "no nondeterministic source or package-level state is used", "the function "+bad+": streams built from equal seeds are no longer identical", nil)
-			// reader state written only in Read
+		}
+		// the reader's state is written only by Read and by unexported helpers that only Read calls
+		writers := map[*core.FuncDecl]token.Pos{}
+		callers := map[*types.Func]map[*core.FuncDecl]bool{}
+		for _, d := range c.Prog.Funcs {
+			if d.Pkg != pkg {
+				continue
+			}
+			d := d
 			ast.Inspect(d.Decl.Body, func(n ast.Node) bool {
-				as, ok := n.(*ast.AssignStmt)
-				if !ok {
-					return true
-				}
-				for _, l := range as.Lhs {
-					root := l
-					for {
-						if ix, ok := unparen(root).(*ast.IndexExpr); ok {
-							root = ix.X
-							continue
+				switch x := n.(type) {
+				case *ast.CallExpr:
+					if f, _ := typeutil.Callee(pkg.TypesInfo, x).(*types.Func); f != nil && f.Pkg() == pkg.Types {
+						if callers[f.Origin()] == nil {
+							callers[f.Origin()] = map[*core.FuncDecl]bool{}
 						}
-						break
+						callers[f.Origin()][d] = true
 					}
-					if fv := fieldVar(root, &core.Frame{Pkg: pkg}); fv != nil && strings.HasPrefix(core.FieldName(fv), "prng.randReader.") {
-						a.note("R14c", "prng.randReader/state-written-only-in-Read", l.Pos(), d.Obj.Name() != "Read", "the reader's state is written only by Read", "the reader's state is written outside Read ("+name+")", nil)
+				case *ast.AssignStmt:
+					for _, l := range x.Lhs {
+						root := l
+						for {
+							if ix, ok := unparen(root).(*ast.IndexExpr); ok {
+								root = ix.X
+								continue
+							}
+							break
+						}
+						if fv := fieldVar(root, &core.Frame{Pkg: pkg}); fv != nil && strings.HasPrefix(core.FieldName(fv), "prng.randReader.") {
+							writers[d] = l.Pos()
+						}
 					}
 				}
 				return true
 			})
+		}
+		allowed := map[*core.FuncDecl]bool{}
+		for _, d := range c.Prog.Funcs {
+			if d.Pkg == pkg && d.Obj.Name() == "Read" {
+				allowed[d] = true
+			}
+		}
+		for changed := true; changed; {
+			changed = false
+			for _, d := range c.Prog.Funcs {
+				if d.Pkg != pkg || allowed[d] || d.Obj.Exported() || len(callers[d.Obj]) == 0 {
+					continue
+				}
+				ok := true
+				for cd := range callers[d.Obj] {
+					if !allowed[cd] {
+						ok = false
+					}
+				}
+				if ok {
+					allowed[d] = true
+					changed = true
+				}
+			}
+		}
+		for d, pos := range writers {
+			a.note("R14c", "prng.randReader/state-written-only-in-Read", pos, !allowed[d], "the reader's state is written only by Read (and helpers only Read calls)", "the reader's state is written outside Read ("+core.FuncName(d.Obj)+")", nil)
 		}
 	} else {
 		c.MissingAnchor("R14c", "package prng")
@@ -569,6 +610,28 @@ func runGcodec(c *Ctx) {
 }
 
 // checkIndexes finds p[len(p)-k] / p[:len(p)-x] uses inside e and requires a dominating guard.
+// expandLocals replaces locals that merely name a pure expression (dataLen := len(data)) by that
+// expression, so that the index analysis sees through them.
+func expandLocals(e ast.Expr, g *gpath, i int, fr *core.Frame, depth int) ast.Expr {
+	if depth > 4 || e == nil {
+		return e
+	}
+	gb := &gbuilder{c: g.c, defs: g.defs[i], sec: g.sec[i]}
+	switch x := e.(type) {
+	case *ast.Ident:
+		if v := identVar(x, fr); v != nil && !v.IsField() {
+			if d, ok := gb.defs[v]; ok && gb.usable(d) {
+				return &ast.ParenExpr{X: expandLocals(d.expr, g, i, d.fr, depth+1)}
+			}
+		}
+	case *ast.ParenExpr:
+		return &ast.ParenExpr{X: expandLocals(x.X, g, i, fr, depth)}
+	case *ast.BinaryExpr:
+		return &ast.BinaryExpr{X: expandLocals(x.X, g, i, fr, depth), Op: x.Op, OpPos: x.OpPos, Y: expandLocals(x.Y, g, i, fr, depth)}
+	}
+	return e
+}
+
 func checkIndexes(c *Ctx, a *agg, name string, g *gpath, i int, e ast.Expr, param *types.Var, fr *core.Frame, p *core.Path, seen map[ast.Node]bool) {
 	ast.Inspect(e, func(n ast.Node) bool {
 		var idx []ast.Expr
@@ -588,6 +651,7 @@ func checkIndexes(c *Ctx, a *agg, name string, g *gpath, i int, e ast.Expr, para
 			if ix == nil {
 				continue
 			}
+			ix = expandLocals(ix, g, i, fr, 0)
 			be, ok := unparen(ix).(*ast.BinaryExpr)
 			if !ok || be.Op != token.SUB {
 				continue
@@ -663,12 +727,12 @@ func runGqueue(c *Ctx) {
 			continue
 		}
 		name := core.FuncName(d.Obj)
-		c.Walk("R10", &core.Config{}, core.Entry{Decl: d}, func(p *core.Path) {
+		c.Walk("R10", &core.Config{Follow: samePkgFollow(d.Pkg.PkgPath)}, core.Entry{Decl: d}, func(p *core.Path) {
 			g := prepare(c, p)
 			var loaded *types.Var // local holding top.Load() of this iteration
 			loadIter, iter := -1, -1
-			linked := false      // Push: newNode.next = loaded in this iteration
-			readNext := false    // Pop: next := loaded.next in this iteration
+			linked := false   // Push: newNode.next = loaded in this iteration
+			readNext := false // Pop: next := loaded.next in this iteration
 			casOK := false
 			for i, ev := range p.Events {
 				if ev.Kind == core.KLoop {
